@@ -124,6 +124,13 @@ pub fn run(
             .stack_size(64 << 20)
             .spawn(move || {
                 crate::crash::set_worker(t);
+                struct Done(Arc<Slot>);
+                impl Drop for Done {
+                    fn drop(&mut self) {
+                        self.0.done.store(true, Ordering::SeqCst);
+                    }
+                }
+                let _done = Done(slot.clone());
                 let r = shard(engine, prop, seed.wrapping_mul(1000003).wrapping_add(t as u64), per, max_len, stop, slot.clone());
                 slot.done.store(true, Ordering::SeqCst);
                 r
@@ -169,7 +176,13 @@ pub fn run(
     let mut stats = Stats::default();
     let mut failure = None;
     for h in handles {
-        let (s, f) = h.join().expect("worker panicked");
+        let (s, f) = match h.join() {
+            Ok(x) => x,
+            Err(e) => {
+                println!("INFRA: a harness worker thread panicked outside the code under test: {}", crate::world::panic_msg(&e));
+                std::process::exit(2);
+            }
+        };
         stats.evaluations += s.evaluations;
         stats.nontrivial_evals += s.nontrivial_evals;
         stats.distinct.extend(s.distinct);
